@@ -7,7 +7,7 @@ Multi-simplices are not allowed.
 
 """
 
-from collections.abc import Hashable, Iterable
+from collections.abc import Hashable, Iterable, Iterator
 from copy import copy, deepcopy
 from itertools import combinations, count
 from warnings import warn
@@ -478,6 +478,8 @@ class SimplicialComplex(Hypergraph):
         if isinstance(ebunch_to_add, dict):
             faces = []  # container to store subfaces
             for idx, members in ebunch_to_add.items():
+                if isinstance(members, Iterator):
+                    members = list(members)  # do not consume a one-shot iterator below
                 # check that it does not exist yet (based on members, not ID)
                 if not members or self.has_simplex(members):
                     continue
@@ -525,6 +527,8 @@ class SimplicialComplex(Hypergraph):
             first_edge = next(new_edges)
         except StopIteration:
             return
+        if isinstance(first_edge, Iterator):
+            first_edge = list(first_edge)  # do not consume it while sniffing the format
         try:
             first_elem = list(first_edge)[0]
         except (TypeError, IndexError):
@@ -567,6 +571,8 @@ class SimplicialComplex(Hypergraph):
                 _ = iter(members)
             except TypeError as e:
                 raise XGIError("Invalid ebunch format") from e
+            if isinstance(members, Iterator):
+                members = list(members)  # do not consume a one-shot iterator below
 
             # check that it does not exist yet (based on members, not ID)
             if not members or self.has_simplex(members):
